@@ -386,23 +386,15 @@ func init() {
 			c.Check(w.alwaysCalls(f, 0, "libs/autofile#Group.FlushAndSync"), "consensus.BaseWAL.FlushAndSync delegates to the group", w.pos(f.Pos()), "calls Group.FlushAndSync", "does not reach Group.FlushAndSync on every path")
 		}
 		if f := c.fn("libs/autofile", "Group.FlushAndSync"); f != nil {
-			syncs := w.callsTo(f, "libs/autofile#AutoFile.Sync")
+			// the calls may sit in f or in a helper of the group introduced later (also one shared with RotateFile)
+			syncs := w.deepCallsTo(f, 2, "libs/autofile#AutoFile.Sync")
 			c.Check(len(syncs) >= 1, "libs/autofile.Group.FlushAndSync syncs the head file", w.pos(f.Pos()), "Head.Sync called", "no Head.Sync call")
 			for _, s := range syncs {
-				c.guards(f, s, "libs/autofile.Group.FlushAndSync Head.Sync", 0, guardCallOK("headBuf.Flush() = nil", "bufio#Writer.Flush"))
+				c.guards(s.call.Parent(), s.call, "libs/autofile.Group.FlushAndSync Head.Sync", 0, guardCallOK("headBuf.Flush() = nil", "bufio#Writer.Flush"))
 			}
-			// success only if both succeeded: a nil result is either the result of Head.Sync itself or behind its success
-			okAll := true
-			sync := c.fn("libs/autofile", "AutoFile.Sync")
-			for _, sp := range successPoints(w, f) {
-				if sp.viaCallee != nil && sp.viaCallee == sync {
-					continue
-				}
-				if okp, _ := c.ge().guardedLocal(f, sp.at, guardCallOK("sync ok", "libs/autofile#AutoFile.Sync"), 2); !okp {
-					okAll = false
-				}
-			}
-			c.Check(okAll, "libs/autofile.Group.FlushAndSync result", w.pos(f.Pos()), "a nil result implies Head.Sync() returned nil", "a nil result is possible without a successful fsync")
+			// success only if both succeeded
+			okAll := c.ge().ensures(f, guardCallOK("sync ok", "libs/autofile#AutoFile.Sync"), 2) && c.ge().ensures(f, guardCallOK("flush ok", "bufio#Writer.Flush"), 2)
+			c.Check(okAll, "libs/autofile.Group.FlushAndSync result", w.pos(f.Pos()), "a nil result implies headBuf.Flush() and Head.Sync() returned nil", "a nil result is possible without a successful flush and fsync")
 		}
 		if f := c.fn("libs/autofile", "AutoFile.Sync"); f != nil {
 			c.Check(len(w.callsTo(f, "os#File.Sync")) == 1, "libs/autofile.AutoFile.Sync calls fsync", w.pos(f.Pos()), "os.File.Sync called", "os.File.Sync not called")
